@@ -8,12 +8,12 @@ from common import sh2
 LEVEL = "proof"
 MANIFEST = {
     "technique": "Coq proof over a hand-written Gallina model of the box codec (header, container recursion, prefixed containers "
-                 "stsd/dref/sample entries, unknown boxes, 46 leaf box types, the box loop of a file) + differential correspondence "
+                 "stsd/dref/sample entries, unknown boxes, 50 leaf box types, the box loop of a file) + differential correspondence "
                  "(extracted OCaml vs Go) + failing-input search on all registered box types whose mutant failures are labelled "
                  "by the model's proved-complete reasons",
     "level_text": "PROOF for the modelled universe (coq/c01/C01Theorems.v): header round trip both ways; for each of the leaf "
                   "kinds ftyp styp free skip mdat mfhd tfhd tfdt trun mvhd tkhd sidx trex mdhd hdlr stts stsc stsz stco co64 stss sdtp "
-                  "ctts elst saiz saio sbgp prft tenc frma vmhd smhd nmhd sthd mfro mehd tfra pssh url avcC btrt pasp colr clap schm cslg "
+                  "ctts elst saiz saio sbgp prft tenc frma vmhd smhd nmhd sthd mfro mehd tfra pssh url avcC btrt pasp colr clap schm cslg senc(raw) emsg elng kind "
                   "and the field prefixes of stsd, dref, VisualSampleEntry (avc1 avc3 hvc1 hev1 encv av01 vp08 vp09) and AudioSampleEntry "
                   "(mp4a enca ac-3 ec-3), everything the decoder accepts is reproduced from the decoded value plus the captured bytes "
                   "(C01_leaf_lossless_*, C01_leaf_table, C01_pre_table); C01_tree: every slice accepted by the model of DecodeBoxSR "
@@ -31,7 +31,7 @@ MANIFEST = {
     "level_note": "Trusted: Coq kernel, extraction, OCaml/Go glue, the hand transcription of the Go text into C01Model.v (tied to "
                   "/repo by the correspondence run on every check), the scanner and generators of the harness. The model follows "
                   "the SliceReader path; reader-path differences are counted, not modelled (C03). Not modelled: esds descriptors, hvcC, "
-                  "senc, sgpd, uuid, emsg, subs, elng, kind, wvtt, stpp, meta/ilst (explored only); the File-level acceptance checks of "
+                  "the per-sample structure of senc (kept raw, as DecodeSencSR does), sgpd, uuid, subs, wvtt, stpp, meta/ilst (explored only); the File-level acceptance checks of "
                   "DecodeFileSR (moov stts chain, mdat placement, senc parsing). c01_dontcare.json: entries with source=model are "
                   "regenerated from the model (rsv_dc marks which captured chunks are ISO reserved) on every run; source=hand entries are "
                   "hand-written. Search failures of mutants made of modelled types are labelled with the model's reason (a failing mutant "
@@ -140,6 +140,8 @@ REASON_SIG = {
     "depth-rewritten-0x0018": ("VisualSampleEntry", "model:depth-rewritten-0x0018"),
     "samplerate-fraction-dropped": ("AudioSampleEntry", "model:samplerate-fraction-dropped"),
     "bytes-after-record-dropped": ("avcC", "model:bytes-after-record-dropped"),
+    "senc-sample-count-zero-data-dropped": ("senc", "model:sample-count-zero-data-dropped-size-kept"),
+    "elng-unterminated-language-rewritten": ("elng", "model:unterminated-language-rewritten"),
     "trun-data-offset-zero": ("trun", "accepted-but-encode-error"),
     "moof-trun-data-offset-zero": ("trun", "accepted-but-encode-error"),
 }
@@ -151,10 +153,10 @@ def reclassify(ctx, model, fails):
     for this very input (why_box; C01_explained proves that an input without a reason is reproduced bit for bit).
     An accepted, not reproduced input for which the model has no reason is reported as such (never absorbed)."""
     ask = [(i, f) for i, f in enumerate(fails)
-           if f[2].startswith("mutant-not-reproduced:") and len(f) > 5 and f[5] == "M1" and not f[3].endswith("...")]
+           if f[2].startswith("mutant-not-reproduced:") and len(f) > 6 and f[5] == "M1" and f[6] != "-"]
     if not ask:
         return
-    res = common.run_model(model, "".join("W\t%d\t%s\n" % (i, f[3]) for i, f in ask))
+    res = common.run_model(model, "".join("W\t%d\t%s\n" % (i, f[6]) for i, f in ask))
     ans = {}
     for l in res:
         p = l.split(" ", 2)
